@@ -414,6 +414,8 @@ func init() {
 			}, Run: c20Triples},
 			{Name: "random", N: func(c *Ctx) int { return tierN(c, 20000, 6000000) }, Run: c20Random},
 			{Name: "number-vs-string", N: c20NumStrN, Run: c20NumStr, Exhaustive: true},
+			{Name: "deep-shared", N: deepSharedN, Run: deepSharedRun("C20"), Exhaustive: true},
+			{Name: "shared-backing", N: func(c *Ctx) int { return tierN(c, 3000, 300000) }, Run: sharedBackingRun},
 			{Name: "matrix", Setup: c20Setup, N: func(c *Ctx) int { return tierN(c, 1500, 100000) }, Run: c20Matrix},
 		},
 	})
